@@ -16,7 +16,7 @@ from plain import gen_ops, make_sd_ordered
 
 RULE = ("history of 2-8 operations (expansions, skip operations, attractor queries) executed as twins: untouched vs with "
         "pickle/reclaim inserted at random points; 40% of the networks declare their variables in a non-alphabetical order, "
-        "30% use a non-default configuration; non-trivial = an insertion happened in the middle of the history and a later "
+        "30% use a non-default configuration; hand-driven grid expansions with raw-candidate queries followed by skip completion; non-trivial = an insertion happened in the middle of the history and a later "
         "operation changed the diagram; distinct by case hash")
 ASSUMPTIONS = ["E8: pickle of networkx graphs and AEON text round trip (from_aeon(to_aeon()))"]
 CASE_TIMEOUT = {"quick": 60, "thorough": 180}
